@@ -24,6 +24,8 @@ fn main() {
             "C01" | "C02" | "C04" | "C05" | "C08" | "C16" => mc::checks::wscheck::replay(&v["case"]),
             "C03" => mc::checks::c03::replay(&v["case"]),
             "C15" => mc::checks::c15::replay(&v["case"]),
+            "C17" => mc::checks::c17::replay(&v["case"]),
+            "C18" => mc::checks::c18::replay(&v["case"]),
             "C06" => mc::checks::c06::replay(&v["case"]),
             "C07" => mc::checks::c07::replay(&v["case"]),
             "C09" => mc::checks::c09::replay(&v["case"]),
@@ -47,6 +49,8 @@ fn main() {
         "C07" => mc::checks::c07::run(rep),
         "C15" => mc::checks::c15::run(rep),
         "C16" => mc::checks::c16::run(rep),
+        "C17" => mc::checks::c17::run(rep),
+        "C18" => mc::checks::c18::run(rep),
         "C20" => mc::checks::c20::run(rep),
         "C19" => mc::checks::c19::run(rep),
         "C08" => mc::checks::c08::run(rep),
